@@ -3,8 +3,12 @@
 package main
 
 import (
+	"encoding/json"
 	"fmt"
 	"os"
+	"runtime/pprof"
+	"strconv"
+	"time"
 
 	"verifharness/props/syncw"
 	"verifharness/world"
@@ -30,6 +34,24 @@ func main() {
 		scratch := world.ScratchRoot()
 		defer os.RemoveAll(scratch)
 		xstate.Worker(f, os.Args[3], scratch)
+		os.RemoveAll(scratch)
+	case "xprof":
+		// harness xprof <model> <params> <pathjson> <n> <cpu.prof>
+		f := models[os.Args[2]]
+		scratch := world.ScratchRoot()
+		var path []string
+		json.Unmarshal([]byte(os.Args[4]), &path)
+		n, _ := strconv.Atoi(os.Args[5])
+		pf, _ := os.Create(os.Args[6])
+		pprof.StartCPUProfile(pf)
+		t0 := time.Now()
+		for i := 0; i < n; i++ {
+			if _, _, err := xstate.Exec(f, os.Args[3], scratch, path); err != nil {
+				fmt.Println(err)
+			}
+		}
+		pprof.StopCPUProfile()
+		fmt.Println("per exec:", time.Since(t0)/time.Duration(n))
 		os.RemoveAll(scratch)
 	case "xreplay":
 		f := models[os.Args[2]]
